@@ -206,7 +206,10 @@ def child_main(job):
         if job.get("keep_text"):
             rec["text"] = text
         if job.get("names"):
-            rec.update(real_names([obj], {"sum_factorization": True} if name == "sumfact-hex" else (job.get("options") or {})))
+            o_ = {"sum_factorization": True} if name == "sumfact-hex" else (job.get("options") or {})
+            rec.update(real_names([obj], o_))
+            # the same request with several extra compiler flags (their rendering in the signature must not depend on the process)
+            rec["module_with_flags"] = real_names([obj], o_, args=["-O1", "-g0", "-DFFCX_VERIF_A=1", "-DFFCX_VERIF_B=2"])["module"]
         out[name] = rec
     sys.stdout.write("HIST-RESULT " + json.dumps(out) + "\n")
 
